@@ -181,7 +181,9 @@ class Framer(tasking.Tasker):
 
     def prune(self):
         """
-        Recursively Prune (destroy) all insular auxiliary clones in all frames
+        Recursively Prune (destroy) all auxiliary clones in all frames
+        A clone whether insular or named belongs to exactly one frame of this
+        framer and its name derives from this framer's name so it goes with it
         Force exit if not done
         Called by Razer Actor when razing insular auxes from frame
         """
@@ -191,7 +193,7 @@ class Framer(tasking.Tasker):
             self.exitAll()
 
         for frame in self.frameNames.values():
-            prunables = [aux for aux in frame.auxes if aux.insular]
+            prunables = [aux for aux in frame.auxes if not aux.original]
             for aux in prunables:
                 aux.prune()
                 frame.auxes.remove(aux)
